@@ -1,6 +1,8 @@
 package main
 
 import (
+	"os"
+	"encoding/pem"
 	"encoding/json"
 	"bytes"
 	"context"
@@ -45,6 +47,8 @@ type DialScenario struct {
 	// FirstDialFails (with the opportunistic policy): the policy is given as a port policy (port 587, fallback
 	// port 25) and the first connection attempt is refused; the dialogue then runs over the fallback port
 	FirstDialFails bool `json:"first_dial_fails,omitempty"`
+	// DefaultTLS: the Client is given no TLS configuration: go-mail's default one applies (server name = host)
+	DefaultTLS bool `json:"default_tls,omitempty"`
 	TLS12     bool              `json:"tls12,omitempty"`      // the server only speaks TLS 1.2
 	sasl      *saslServer
 	Timeout   time.Duration     `json:"-"`
@@ -88,7 +92,11 @@ var (
 	tlsOnce                         sync.Once
 	tlsGoodCfg, tlsWrongName, tlsUntrusted map[string]*tls.Config
 	tlsRoots                        *x509.CertPool
+	tlsPrefix255                    map[string]*tls.Config // certificates valid for the first 255 characters of a longer host name only
 )
+
+// longHost: a configured server name of 300 characters (not a name the DNS could carry; a client may be handed one)
+var longHost = strings.Repeat("mail-relay-host-name-label.", 11) + "example"
 
 func tlsMaterial() {
 	tlsOnce.Do(func() {
@@ -99,7 +107,17 @@ func tlsMaterial() {
 		rogue, rogueKey := mkCA("rogue root")
 		tlsRoots = x509.NewCertPool()
 		tlsRoots.AddCert(root)
-		for _, host := range []string{"verif.example", "localhost", "127.0.0.1", "localhost.mail-relay.example", "LOCALHOST"} {
+		// the root is also what the process trusts by default (clients that bring no TLS configuration of their own:
+		// go-mail's default configuration then decides which name the certificate is checked against)
+		if f, err := os.CreateTemp("", "gmverif-roots-*.pem"); err == nil {
+			_ = pem.Encode(f, &pem.Block{Type: "CERTIFICATE", Bytes: root.Raw})
+			_ = f.Close()
+			_ = os.Setenv("SSL_CERT_FILE", f.Name())
+			_ = os.Setenv("SSL_CERT_DIR", "/nonexistent-gmverif")
+		}
+		tlsPrefix255 = map[string]*tls.Config{}
+		tlsPrefix255[longHost] = &tls.Config{Certificates: []tls.Certificate{mkLeaf(longHost[:255], root, rootKey)}}
+		for _, host := range []string{"verif.example", "localhost", "127.0.0.1", "localhost.mail-relay.example", "LOCALHOST", longHost} {
 			tlsGoodCfg[host] = &tls.Config{Certificates: []tls.Certificate{mkLeaf(host, root, rootKey)}}
 			tlsWrongName[host] = &tls.Config{Certificates: []tls.Certificate{mkLeaf("other.example", root, rootKey)}}
 			tlsUntrusted[host] = &tls.Config{Certificates: []tls.Certificate{mkLeaf(host, rogue, rogueKey)}}
@@ -137,6 +155,8 @@ func newDialServer(sc *DialScenario, host string) *RefServer {
 	srv.Dynamic = sc.dynamic
 	srv.TLSGood = tlsGoodCfg[host]
 	switch sc.BadCert {
+	case "prefix255":
+		srv.TLSBad = tlsPrefix255[host]
 	case "untrusted":
 		srv.TLSBad = tlsUntrusted[host]
 	default:
@@ -234,7 +254,9 @@ func RunDial(sc *DialScenario) *DialRun {
 	default:
 		opts = append(opts, mail.WithTLSPolicy(pol))
 	}
-	if pick() {
+	if sc.DefaultTLS {
+		// nothing: the default configuration of NewClient
+	} else if pick() {
 		later = append(later, func(c *mail.Client) { _ = c.SetTLSConfig(tlsCfg) })
 	} else {
 		opts = append(opts, mail.WithTLSConfig(tlsCfg))
